@@ -108,6 +108,18 @@ var specs = map[string]spec{
 		},
 		Assumptions: commonAssumptions, Plain: true, QuickStride: 1, ThoroughStride: 1, QuickDeadline: 420, ThoroughDeadline: 3000,
 	},
+	"C15": {
+		LevelText: "exhaustive enumeration of every text run over {a,<,>,space,tab,CR,LF,e-acute} up to the stated lengths between every pair of neighbour kinds (template edge, print, {sp}, {nil}, block), of every comment placement over a dictionary of text pieces, of literal blocks and of all pairs of special-character commands; each template is compiled and rendered by the real implementation and compared with a declarative transcription of the rule in the statement",
+		LevelNote: "trusted base: refJoinLines (20 lines, harness/c15.go); for whitespace adjacent to comments only the weaker clauses are asserted (no comment character in the output, all other non-whitespace characters in order), because trimming next to comments is pinned by the repository tests",
+		Technique: "exhaustive small-scope enumeration of inputs against a declarative reference rule",
+		Level:     "model_checking",
+		Rule:      "a state is a distinct (neighbours, text) template; a transition is one render compared with the rule; non-trivial = non-empty template body",
+		Bounds: map[string]string{
+			"quick":    "all strings len<=4 between all 25 neighbour pairs, len 5 for the 5 equal-neighbour pairs, len 6 between two prints; 8^3 x 8^2 two-run texts; 12x12 pieces x 6 comment forms x 3 predecessors; literals len<=4; 7x7 special commands x 6 texts",
+			"thorough": "len<=5 for all neighbour pairs, len 6 for equal-neighbour pairs",
+		},
+		Assumptions: commonAssumptions, Plain: true, QuickStride: 1, ThoroughStride: 1, QuickDeadline: 420, ThoroughDeadline: 3000,
+	},
 	"C05": {
 		LevelText: "bounded exhaustive exploration of the real parser: every input of the stated small scopes is parsed under a controlled scheduler with a deterministic linear fuel bound (no wall clock), and small inputs under every parser/scanner interleaving up to 2 preemptions; termination, no panic, no deadlock and tree-xor-error are checked on every execution and every case is replayed on the uninstrumented build",
 		LevelNote: "assumes the bounded scopes are representative (small-scope hypothesis) and that the overlay instrumentation preserves behaviour (cross-checked case by case against the plain build)",
